@@ -185,6 +185,28 @@ async fn read_plan_tokio<R: tokio::io::AsyncRead + Unpin>(recv: &mut R, buf_size
         recv.read_to_end(&mut out).await.map_err(|e| format!("read_to_end: {e}"))?;
         return Ok((out, 1));
     }
+    if buf_size % 3 == 1 {
+        // the `AsyncRead` contract itself: `poll_read` appends to a `ReadBuf` that may already hold
+        // filled bytes (that is how `AsyncReadExt::read_exact`, `take`, `chain` and buffered readers
+        // drive it) and must leave those bytes and their count alone
+        const MARK: [u8; 5] = [0xa5, 0x5a, 0xc3, 0x3c, 0x99];
+        loop {
+            reads += 1;
+            let k = reads % 6 % (MARK.len() + 1);
+            let mut storage = vec![0u8; k + buf.len()];
+            let mut rb = tokio::io::ReadBuf::new(&mut storage);
+            rb.put_slice(&MARK[..k]);
+            std::future::poll_fn(|cx| std::pin::Pin::new(&mut *recv).poll_read(cx, &mut rb)).await.map_err(|e| format!("AsyncRead::poll_read: {e}"))?;
+            let filled = rb.filled();
+            if filled.len() < k || filled[..k] != MARK[..k] {
+                return Err(format!("AsyncRead::poll_read disturbed the {k} bytes already filled in the ReadBuf (filled is now {} bytes)", filled.len()));
+            }
+            if filled.len() == k {
+                return Ok((out, reads));
+            }
+            out.extend_from_slice(&filled[k..]);
+        }
+    }
     loop {
         reads += 1;
         match recv.read(&mut buf).await {
